@@ -1,4 +1,5 @@
 import GqlVerif.Props.C12
+import GqlVerif.Proofs.C12Items
 open GqlVerif.C12
 #print axioms dfs_sound
 #print axioms dfs_complete
@@ -9,3 +10,16 @@ open GqlVerif.C12
 #print axioms fragment_boxed_acyclic
 #print axioms box_transparent_de
 #print axioms box_transparent_ser
+-- by-value containment on the EMITTED items (`T` and `Option<T>` by value; `Vec`, `Box` indirections) is acyclic
+-- (Proofs/C12Items.lean)
+#print axioms GqlVerif.C12I.acyclic_iff
+#print axioms GqlVerif.C12I.input_items_acyclic
+#print axioms GqlVerif.C12I.responseForQuery_input_items_acyclic
+#print axioms GqlVerif.C12I.response_items_acyclic
+#print axioms GqlVerif.C12I.module_response_items_acyclic
+#print axioms GqlVerif.C12I.module_response_items_acyclic_of_check
+#print axioms GqlVerif.C12I.responseForQuery_response_items_acyclic
+#print axioms GqlVerif.C12I.mentionsFaithful_needed
+#print axioms GqlVerif.C12I.distinct_names_needed
+#print axioms GqlVerif.C12I.closure_needed
+#print axioms GqlVerif.C12I.fragment_named_String_cyclic
